@@ -358,9 +358,21 @@ def r2(ctx):
         if len(x) == 1:
             lp = cfg.innermost_loop(b, x[0][0].bb)
             nx = [t for t in b.calls(r'::next$') if lp and t.bb in lp.blocks]
-            src = core(loop_source(b, nx[0])) if nx else None
-            ok = src is not None and has(src, Call('RangeInclusive::new', Const(1), Call('CharString::len', ('arg', arg, ANY))))
-            ctx.require(ok, b, 'init-range|' + which, 'the %s initialisation runs over 1..=len' % which, None)
+            from rules.common import range_bounds
+            src = loop_source(b, nx[0]) if nx else None
+            rb = None
+            for x_ in walk(src) if src is not None else ():
+                if isinstance(x_, tuple) and x_:
+                    rb = range_bounds(x_)
+                    if rb is not None:
+                        break
+            ok = False
+            if rb is not None and rb[0] == 1 and not isinstance(rb[1], int):
+                # upper bound (exclusive) = len + 1, however it is spelled (1..=len, 1..len + 1, 1..rows with rows = len + 1)
+                lens = [y for y in walk(rb[1]) if isinstance(y, tuple) and y and match(core(y), Call('CharString::len', ('arg', arg, ANY)))]
+                ok = bool(lens) and poly.poly(rb[1]) == poly._add(poly.poly(lens[0]), {(): 1}, 1)
+            ctx.require(ok, b, 'init-range|' + which, 'the %s initialisation runs over 1..=len' % which,
+                        'the %s initialisation runs over %s' % (which, show_in(b, src)[:100] if src is not None else 'an unrecognised range'))
     rv = ret_values(b)
     ok = len(rv) == 1 and match(core(rv[0][0]), ('agg', 'tuple', '', (_var('d'), _var('ops'))))
     ctx.require(ok, b, 'result', 'returns (d, ops)', None)
@@ -380,53 +392,48 @@ def r3(ctx):
     if loop is None:
         raise AnchorMissing('backtrace loop')
     table = {'Keep': (1, 1, None), 'Insert': (0, 1, 'Insert'), 'Delete': (1, 0, 'Delete'), 'Replace': (1, 1, 'Replace'), 'Swap': (2, 2, 'Swap')}
-    arms = {}
-    for blk in loop.blocks:
-        for t, names in variant_facts_at(b, blk):
-            if len(names) == 1 and list(names)[0] in table:
-                arms.setdefault(list(names)[0], set()).add(blk)
-    sts = list(_stores(b, loop.blocks))
+    from rules.common import iteration_table
+    rows = iteration_table(b, loop, {'i': R['i'], 'j': R['j']})
+    if rows is None:
+        raise AnchorMissing('paths of the backtrace loop (too many)')
+    iv, jv = ('var', b.var_name(R['i']) or '', R['i']), ('var', b.var_name(R['j']) or '', R['j'])
+    byname = {}
+    for r in rows:
+        cell = [n for t, n in r['variants'] if len(n) == 1 and list(n)[0] in table or list(n)[0:1] == ['None']]
+        names = [list(n)[0] for t, n in r['variants'] if len(n) == 1 and list(n)[0] in table and peel(t)[0] in ('index', 'call', 'unwrap', 'field')]
+        if names:
+            byname.setdefault(names[0], []).append(r)
     for name, (di, dj, pushed) in table.items():
-        blocks = arms.get(name)
-        if not blocks:
-            ctx.fail(b, 'arm-missing|' + name, 'backtrace has no arm for EditOp::%s' % name)
+        rs = byname.get(name)
+        if not rs:
+            ctx.fail(b, 'arm-missing|' + name, 'backtrace has no path for EditOp::%s' % name)
             continue
-        dec = {'i': 0, 'j': 0}
-        bad = []
-        for s, t, v in sts:
-            if s.bb in blocks and t[0] == 'var' and _role(t[2]) in ('i', 'j'):
-                cv = core(v)
-                if cv[0] == 'bin' and cv[1] == 'Sub' and cv[2][0] == 'var' and cv[2][2] == t[2] and cv[3][0] == 'const':
-                    dec[_role(t[2])] += cv[3][2]
-                else:
-                    bad.append(show_in(b, v))
-        ctx.require((dec['i'], dec['j']) == (di, dj) and not bad, b, 'step|' + name, '%s moves (i, j) by (-%d, -%d)' % (name, di, dj),
-                    '%s moves (i, j) by (-%d, -%d) %s (expected (-%d, -%d))' % (name, dec['i'], dec['j'], bad, di, dj))
-        ps = [p for p in pushes if p.bb in blocks]
-        if pushed is None:
-            ctx.require(not ps, b, 'push|' + name, 'Keep pushes nothing', 'Keep pushes an edit operation')
-            continue
-        ok = len(ps) == 1
-        if ok:
-            v = core(sym(b, ps[0].args[1]))
-            ok = v[0] == 'agg' and len(v[3]) == 3 and v[3][0][0] == 'agg' and v[3][0][2].endswith('EditOperation::' + pushed) and \
-                match(v[3][1], _var('i')) and match(v[3][2], _var('j'))
-            # positions are the decremented ones: every decrement of the arm dominates the push
-            decs = [s for s, t, vv in sts if s.bb in blocks and t[0] == 'var' and _role(t[2]) in ('i', 'j')]
-            ok = ok and all(cfg.dominates(b, s.bb, ps[0].bb) and s.bb != ps[0].bb or (s.bb == ps[0].bb) for s in decs)
-            # tuple built after the decrements: the aggregate statement's block is dominated by the decrement blocks
-            tup = [s for s in b.stmts() if s.bb in blocks and s.kind == 'assign' and s.rv.kind == 'agg' and s.rv.agg == 'tuple' and len(s.rv.ops) == 3]
-            ok = ok and len(tup) == 1 and all(cfg.dominates(b, s.bb, tup[0].bb) and (s.bb != tup[0].bb or s.idx < tup[0].idx) for s in decs)
-        ctx.require(ok, b, 'push|' + name, '%s pushes (EditOperation::%s, i, j) after the step' % (name, pushed),
-                    '%s pushes %s' % (name, [show_in(b, sym(b, p.args[1])) for p in ps]))
-    # loop condition and start
-    conds = [g for g in edge_guards(b) if g.block in loop.blocks and g.target not in loop.blocks]
+        steps = {(r['delta']['i'], r['delta']['j']) for r in rs}
+        ctx.require(steps == {(-di, -dj)}, b, 'step|' + name, '%s moves (i, j) by (-%d, -%d)' % (name, di, dj),
+                    '%s moves (i, j) by %s (expected (-%d, -%d))' % (name, sorted(steps, key=str), di, dj))
+        okp = True
+        shown = []
+        for r in rs:
+            ps = [(t, a) for t, a in r['calls'] if (t.callee_res() or '').endswith('Vec::push')]
+            shown += [show_in(b, a[1])[:80] for t, a in ps]
+            if pushed is None:
+                okp = okp and not ps
+                continue
+            if len(ps) != 1:
+                okp = False
+                continue
+            v = peel(ps[0][1][1])
+            okp = okp and v[0] == 'agg' and len(v[3]) == 3 and core(v[3][0])[0] == 'agg' and core(v[3][0])[2].endswith('EditOperation::' + pushed) and \
+                poly.poly(v[3][1]) == poly._add(poly.poly(iv), {(): di}, -1) and poly.poly(v[3][2]) == poly._add(poly.poly(jv), {(): dj}, -1)
+        ctx.require(okp, b, 'push|' + name, ('%s pushes nothing' % name) if pushed is None else '%s pushes (EditOperation::%s, i, j) with the decremented positions' % (name, pushed),
+                    '%s pushes %s' % (name, sorted(set(shown))))
+    # loop condition: left exactly when i == 0 and j == 0
     ok = False
     for (u, w) in loop.exits(b):
         at = [(core(t), pol) for t, pol, g in atoms_at(b, w)]
-        gi = any(pol is False and match(t, ('bin', 'Gt', _var('i'), Const(0))) for t, pol in at)
-        gj = any(pol is False and match(t, ('bin', 'Gt', _var('j'), Const(0))) for t, pol in at)
-        if gi and gj:
+        zero = lambda vv: any((pol is False and match(t, ('bin', 'Gt', _var(vv), Const(0)))) or (pol is True and match(t, ('bin', 'Eq', _var(vv), Const(0)))) or
+                              (pol is False and match(t, ('bin', 'Ne', _var(vv), Const(0)))) for t, pol in at)
+        if zero('i') and zero('j'):
             ok = True
     ctx.require(ok, b, 'loop-condition', 'the backtrace runs while i > 0 || j > 0', None)
     inits = {}
